@@ -25,6 +25,7 @@ BASE_FLAGS = ["--show-column-numbers", "--no-error-summary", "--hide-error-conte
 
 _REC: list | None = None
 _ONCE: list | None = None
+_SKIP: set = set()
 _PATCHED = False
 
 
@@ -77,6 +78,16 @@ def install_observer():
         return orig(self, file, info)
 
     E.Errors._add_error_info = wrapped
+
+    orig_skip = E.Errors.set_skipped_lines
+
+    def set_skipped(self, file, skipped_lines):
+        # lines mypy treats as unreachable (no unused-ignore errors are reported there)
+        if _REC is not None and os.path.basename(file) == "main.py":
+            _SKIP.update(int(x) for x in skipped_lines)
+        return orig_skip(self, file, skipped_lines)
+
+    E.Errors.set_skipped_lines = set_skipped
     _PATCHED = True
 
 
@@ -91,10 +102,15 @@ def run_mypy(files, flags, observe=False):
             install_observer()
             _REC = []
             _ONCE = []
+            _SKIP.clear()
         out, err, st = mypyrun.run_inproc(BASE_FLAGS + flags + ["--cache-dir", cdir, "main.py"], cwd=d)
         rec = _REC
         if rec is not None:
-            rec.append({"__once__": _ONCE or []})
+            # modules reached through imports are reported under their absolute path internally
+            for r in list(rec) + list(_ONCE or []):
+                if os.path.isabs(r["file"]):
+                    r["file"] = os.path.relpath(r["file"], os.path.realpath(d)) if os.path.realpath(r["file"]).startswith(os.path.realpath(d) + os.sep) else r["file"]
+            rec.append({"__once__": _ONCE or [], "__skipped__": sorted(_SKIP)})
         _REC = None
         _ONCE = None
     finally:
@@ -302,11 +318,47 @@ def exit_rule(st, ds, rest) -> str | None:
     return None
 
 
+
+_STABLE: dict = {}
+
+
+def baseline_stable(files, flags) -> bool:
+    """False when the program's diagnostics differ from run to run (hash seed / memory layout dependent inference -
+    a C10 matter): comparing a baseline with its variants says nothing then."""
+    key = chash([files, flags])
+    if key not in _STABLE:
+        d = mypyrun.scratch("c13st")
+        outs = set()
+        try:
+            mypyrun.write_files(d, files)
+            for hs in (0, 1, 2, 3, 4, 5):
+                cdir = mypyrun.scratch("c13stc")
+                try:
+                    mypyrun.seed_for(BASE_FLAGS + flags, "c13").copy_to(cdir)
+                    out, err, st = mypyrun.run_sub(BASE_FLAGS + flags + ["--cache-dir", cdir, "main.py"], cwd=d, env={"PYTHONHASHSEED": str(hs)}, timeout=600)
+                    outs.add((st, out))
+                finally:
+                    mypyrun.rmtree(cdir)
+        finally:
+            mypyrun.rmtree(d)
+        _STABLE[key] = len(outs) == 1
+    return _STABLE[key]
+
+
 def judge(run: Run, res) -> None:
     files, flags = res["files"], res["flags"]
     base = res["base"]
     run.count()
     case0 = {"files": files, "flags": flags}
+    _report = run.report
+
+    def report_if_stable(sg, case_, text, instance=None):
+        # differences between a baseline and its variant mean something only if the program's output is stable
+        if run.match_known(sg, instance) is None and not baseline_stable(files, flags):
+            run.label("unstable_program_not_judged(lead for C10)")
+            return False
+        return _report(sg, case_, text, instance=instance)
+
     if res.get("crash"):
         run.label("crashed_case_skipped")
         return
@@ -324,8 +376,10 @@ def judge(run: Run, res) -> None:
     pm = parent_map()
     rec = base["rec"] or []
     once = []
+    base_skipped: set = set()
     if rec and "__once__" in rec[-1]:
         once = rec[-1]["__once__"]
+        base_skipped = set(rec[-1].get("__skipped__") or [])
         rec = rec[:-1]
     B = [diag.Diag(*t) for t in base["ds"]]
     rawkeys: dict = {}
@@ -352,19 +406,43 @@ def judge(run: Run, res) -> None:
             fam = {c} | {k for k, p in pm.items() if p == c}
             fam.discard(var.get("sub"))  # an explicitly enabled sub-code stays enabled
             # the code is disabled through an inline comment in main.py, i.e. for that module only
-            must_go = [k for k in Bk if k[5] in fam and k[0] == "main.py"]
-            exp = [k for k in Bk if not (k[5] in fam and k[0] == "main.py")]
+            # notes are printed without a code but carry the code of their error internally (raw records)
+            def in_fam(k):
+                if k[0] != "main.py":
+                    return False
+                if k[5] in fam:
+                    return True
+                rs = rawkeys.get(k)
+                return bool(rs) and all(r["code"] in fam for r in rs)
+
+            must_go = [k for k in Bk if in_fam(k)]
+            exp = [k for k in Bk if not in_fam(k)]
+            # once-per-run messages: when the emission shown in the baseline goes with the disabled code, the next
+            # emission that is not disabled is shown instead (possibly in another file)
+            relocated_d = []
+            shown = {}
+            for r in once:
+                kk = key_of_raw(r)
+                if r["msg"] in shown:
+                    continue
+                if kk in Bk or shown.get(("armed", r["msg"])):
+                    if r["file"] == "main.py" and r["code"] in fam:
+                        shown[("armed", r["msg"])] = True  # baseline emission (or a later one) is disabled: keep looking
+                        continue
+                    shown[r["msg"]] = kk
+                    if kk not in Bk:
+                        relocated_d.append(kk)
             if any(k[5] in fam and k[0] == "main.py" for k in Vk):
                 run.report("code-disable|still-reported|%s" % c, case, "--disable-error-code %s but diagnostics with that code remain: %s" % (c, [k for k in Vk if k[5] in fam and k[0] == "main.py"][:3]))
             elif Vk != exp:
                 lost = [k for k in exp if k not in Vk]
-                extra = [k for k in Vk if k not in exp]
+                extra = [k for k in Vk if k not in exp and k not in relocated_d]
                 # code-less notes attached to a disabled error go with it
                 if not extra and all(k[3] == "note" and k[5] is None for k in lost):
                     run.label("disable:codeless_notes_removed_with_parent")
-                else:
-                    first = (lost + extra)[0] if (lost or extra) else (None,) * 6
-                    run.report("code-disable|other-diagnostic-changed|%s|%s|%s" % ("lost" if lost else "extra" if extra else "order", first[5] or "nocode", norm_msg(first[4] or "")), case, "--disable-error-code %s changed other diagnostics: lost %s extra %s" % (c, lost[:3], extra[:3]))
+                elif lost or extra:
+                    first = (lost + extra)[0]
+                    report_if_stable("code-disable|other-diagnostic-changed|%s|%s|%s" % ("lost" if lost else "extra", first[5] or "nocode", norm_msg(first[4] or "")), case, "--disable-error-code %s changed other diagnostics: lost %s extra %s" % (c, lost[:3], extra[:3]))
             if must_go and len(exp) > 0:
                 run.nontriv(chash([files, "disable", c]))
             continue
@@ -424,12 +502,19 @@ def judge(run: Run, res) -> None:
 
         relocated = []
         seen_msgs = set()
+        armed = set()
         for r in once:
             if r["msg"] in seen_msgs:
                 continue
+            k = key_of_raw(r)
+            if r["msg"] not in armed:
+                # emissions before the one the baseline shows are suppressed by something that is there in both runs
+                # (the program's own ignore comments, disabled codes): they never count
+                if k not in Bk:
+                    continue
+                armed.add(r["msg"])
             if not is_sup(r):
                 seen_msgs.add(r["msg"])
-                k = key_of_raw(r)
                 if k not in Bk:
                     relocated.append(k)
         for k in relocated:
@@ -454,13 +539,13 @@ def judge(run: Run, res) -> None:
                     sg = "over-suppression|note|%s" % (k[5] or "nocode")
                 else:
                     sg = "over-suppression|%s|%s" % (k[5] or "nocode", "same-line" if k[1] in ann else "other-line")
-                run.report(sg, case, "ignore comments on lines %s removed a diagnostic the model keeps: %s" % (lnset, k))
+                report_if_stable(sg, case, "ignore comments on lines %s removed a diagnostic the model keeps: %s" % (lnset, k), instance=chash([files, var["ann"]]) if k[3] == "note" else None)
         # (2) everything matched disappears
         for k in must_remove:
             if k in Vk:
                 cs = ann.get(k[1])
                 sg = "under-suppression|%s|%s" % (k[5] or "nocode", "note" if k[3] == "note" else "error")
-                run.report(sg, case, "diagnostic should be suppressed by the ignore comments %s but is still reported: %s" % (var["ann"], k))
+                report_if_stable(sg, case, "diagnostic should be suppressed by the ignore comments %s but is still reported: %s" % (var["ann"], k))
         # (3) additions are exactly unused-ignore errors / 'not covered' notes on annotated lines
         for k in added:
             if k[5] == "unused-ignore" and k[3] == "error" and k[0] == "main.py":
@@ -477,17 +562,22 @@ def judge(run: Run, res) -> None:
             elif k[3] == "note" and k[0] == "main.py" and k[5] == "unused-ignore":
                 pass
             else:
-                run.report("suppression|new-diagnostic|%s|%s" % (k[5] or "nocode", norm_msg(k[4])), case, "ignore comments %s introduced a diagnostic: %s" % (var["ann"], k))
+                report_if_stable("suppression|new-diagnostic|%s|%s" % (k[5] or "nocode", norm_msg(k[4])), case, "ignore comments %s introduced a diagnostic: %s" % (var["ann"], k), instance=chash([files, var["ann"]]) if k[3] == "note" and k[5] is None else None)
         if warn_unused:
             got_unused = {k[1] for k in Vk if k[5] == "unused-ignore" and k[3] == "error" and k[0] == "main.py"}
+            skipped = base_skipped
             for ln, why in exp_unused_lines.items():
+                if ln in skipped:
+                    # documented: unused ignores are not reported in code mypy treats as unreachable
+                    run.label("unused_ignore_expectation_dropped_unreachable_line")
+                    continue
                 if ln not in got_unused and why != "parent-used-via-subcode":
                     run.report("unused-ignore|not-reported|%s" % why, case, "ignore on line %d (%s) suppressed nothing but no unused-ignore error is reported" % (ln, ann[ln]))
         # (4) order of survivors preserved
         surv_b = [k for k in Bk if k in Vk]
         surv_v = [k for k in Vk if k in Bk]
         if surv_b != surv_v and sorted(map(repr, surv_b)) == sorted(map(repr, surv_v)):
-            run.report("suppression|order-changed", case, "order of unaffected diagnostics changed")
+            report_if_stable("suppression|order-changed", case, "order of unaffected diagnostics changed")
         multi_diag_line = any(sum(1 for k in Bk if k[0] == "main.py" and k[1] == ln) >= 2 for ln in ann)
         if (multi_diag_line or nontrivial) and len(Vk) > 0:
             run.nontriv(chash([files, var["ann"]]))
